@@ -15,6 +15,10 @@ import (
 // garbage collector is switched off (a stop-the-world would wait for it).
 func killThreadProbe(i int, p Probe) {
 	debug.SetGCPercent(-1)
+	// the probe is a raw system call: the dying thread takes its P with it, so at least one more is needed
+	if runtime.GOMAXPROCS(0) < 2 {
+		runtime.GOMAXPROCS(2)
+	}
 	tidCh := make(chan int, 2)
 	go func() {
 		runtime.LockOSThread()
@@ -32,11 +36,26 @@ func killThreadProbe(i int, p Probe) {
 			return
 		default:
 		}
-		if _, err := os.Stat(fmt.Sprintf("/proc/self/task/%d", tid)); err != nil {
+		if threadDead(tid) {
 			emit(map[string]any{"ev": "thread-gone", "i": i, "tid": tid})
 			return
 		}
 		time.Sleep(5 * time.Millisecond)
 	}
 	emit(map[string]any{"ev": "thread-wait-timeout", "i": i, "tid": tid})
+}
+
+// threadDead: the task entry is gone, or - for the thread group leader, whose entry stays until the whole
+// process ends - the task is a zombie.
+func threadDead(tid int) bool {
+	b, err := os.ReadFile(fmt.Sprintf("/proc/self/task/%d/stat", tid))
+	if err != nil {
+		return true
+	}
+	st := string(b)
+	if k := lastIndexByte(st, ')'); k >= 0 {
+		f := fieldsOf(st[k+1:])
+		return len(f) > 0 && (f[0] == "Z" || f[0] == "X")
+	}
+	return false
 }
